@@ -24,7 +24,8 @@ namespace attr
 
 /-- `_adjust_attributes_of_avg_pool(expand_size, kernel_size, stride, padding)`. -/
 def avgPool (k : Nat) (ks st pad : IntOrList) : List Int × List Int × List Int :=
-  let kernel := match ks with | .int v => List.replicate k v | .list l => l
+  -- fix df33c3d: 1-element kernel_size / stride are broadcast like a 1-element padding
+  let kernel := match ks with | .int v => List.replicate k v | .list l => if l.length = 1 then pyMul l k else l
   let pads := match pad with
     | .int v => pyMul (pyMul [v] k) 2
     | .list p =>
@@ -33,13 +34,13 @@ def avgPool (k : Nat) (ks st pad : IntOrList) : List Int × List Int × List Int
       else pyMul p 2
   let strides := match st with
     | .int v => List.replicate k v
-    | .list l => if l.isEmpty then kernel else l
+    | .list l => if l.isEmpty then kernel else if l.length = 1 then pyMul l k else l
   (kernel, strides, pads)
 
 /-- `_adjust_attributes_of_max_pool(expand_size, kernel_size, stride, padding, dilation)`. -/
 def maxPool (k : Nat) (ks st pad dil : IntOrList) : List Int × List Int × List Int × List Int :=
-  let dils := match dil with | .int v => List.replicate k v | .list l => l
-  let kernel := match ks with | .int v => List.replicate k v | .list l => l
+  let dils := match dil with | .int v => List.replicate k v | .list l => if l.length = 1 then pyMul l k else l
+  let kernel := match ks with | .int v => List.replicate k v | .list l => if l.length = 1 then pyMul l k else l
   let pads := match pad with
     | .int v => pyMul (pyMul [v] k) 2
     | .list p =>
@@ -49,7 +50,7 @@ def maxPool (k : Nat) (ks st pad dil : IntOrList) : List Int × List Int × List
       else p
   let strides := match st with
     | .int v => List.replicate k v
-    | .list l => if l.isEmpty then kernel else l
+    | .list l => if l.isEmpty then kernel else if l.length = 1 then pyMul l k else l
   (kernel, strides, pads, dils)
 
 /-- `aten_convolution`: `image_d = rank - 2`; an int or a 1-element sequence is repeated `image_d` times;
@@ -309,5 +310,160 @@ def spec (s : Shape) (p : List Int) : Option Shape :=
     if outs.any (· < 0) then none else some (outs.map Int.toNat)
 
 end pad
+
+end OV.C08
+
+/-! ## second attribute-helper family: unfold (size/step), upsample (size / scales → Resize inputs),
+col2im (pads), im2col (index ranges) -/
+namespace OV.C08
+
+namespace unfold_
+
+/-- Number of windows as emitted: `Range(0, d - (size - 1), step)`. -/
+def windows (d size step : Int) : Nat := rangeLen 0 (d - (size - 1)) step
+
+/-- PyTorch: `(d - size) / step + 1`. -/
+def specWindows (d size step : Int) : Int := (d - size) / step + 1
+
+def model (s : Shape) (dim size step : Int) : Option Shape :=
+  if s.length = 0 then some [1]
+  else
+    let r : Int := s.length
+    let dm := if dim < 0 then dim + r else dim
+    if dm < 0 ∨ dm ≥ r ∨ size < 0 then none
+    else
+      let a := dm.toNat
+      some (setAt s a (windows (s.getD a 0) size step) ++ [size.toNat])
+
+def term (r : Nat) (dim size step : Int) : String :=
+  if r = 0 then tOp "Unsqueeze" ["x0", "[0]"]
+  else
+    let dm := if dim < 0 then dim + (r : Int) else dim
+    let perm := ((List.range (r + 1)).eraseIdx (dm.toNat + 1)) ++ [dm.toNat + 1]
+    let starts := tOp "Range" ["0", tOp "Sub" [tOp "Gather" [tOp "Shape" ["x0"] [("start", "0")], tInts [dm]] [("axis", "0")],
+      tI (size - 1)], tI step]
+    let idx := tOp "Add" [tOp "Unsqueeze" [starts, "[1]"],
+      tOp "Unsqueeze" [tInts ((List.range size.toNat).map (Int.ofNat ·)), "[0]"]]
+    tOp "Transpose" [tOp "Gather" ["x0", idx] [("axis", tI dm)]] [("perm", tNats perm)]
+
+def spec (s : Shape) (dim size step : Int) : Option Shape :=
+  match torchDim s.length dim with
+  | none => none
+  | some a =>
+    if step ≤ 0 ∨ size < 0 then none
+    else if s.length = 0 then (if size ≤ 1 then some [size.toNat] else none)
+    else
+      let d : Int := s.getD a 0
+      if size > d then none
+      else some (setAt s a (specWindows d size step).toNat ++ [size.toNat])
+
+end unfold_
+
+namespace upsample
+
+/-- A scale given in halves (`n` means `n/2`): the only scales the generators use (exact in binary). -/
+def scaleStr (n : Int) : String :=
+  toString (n / 2) ++ (if n % 2 = 0 then ".0" else ".5") ++ ":FLOAT"
+
+/-- `_aten_upsample_output_size` / `_aten_upsample_scales` for the nearest / linear families:
+`scales = none` → `Resize(sizes = [N, C] ++ output_size)`, else `Resize(scales = [1, 1] ++ scales)`
+and ONNX computes `floor(in * scale)`. -/
+def model (s : Shape) (outSize : List Int) (scales : Option (List Int)) : Option Shape :=
+  if s.length < 3 then none
+  else match scales with
+    | none => if outSize.length + 2 = s.length ∧ outSize.all (0 < ·) then some (s.take 2 ++ outSize.map Int.toNat) else none
+    | some sc =>
+      if sc.length + 2 ≠ s.length then none
+      else some (s.take 2 ++ (List.range sc.length).map (fun i => (((s.getD (i + 2) 0 : Nat) : Int) * sc.getD i 0 / 2).toNat))
+
+def term (outSize : List Int) (scales : Option (List Int)) (mode ctm : String) : String :=
+  let attrs := [("antialias", "0"), ("coordinate_transformation_mode", ctm), ("cubic_coeff_a", "-0.75"),
+    ("exclude_outside", "0"), ("extrapolation_value", "0.0"), ("keep_aspect_ratio_policy", "stretch"),
+    ("mode", mode), ("nearest_mode", "floor")]
+  match scales with
+  | none => tOp "Resize" ["x0", "_", "_", tOp "Concat" [tOp "Shape" ["x0"] [("end", "2"), ("start", "0")],
+      tOp "Cast" [tInts outSize] [("to", "7")]] [("axis", "0")]] attrs
+  | some sc => tOp "Resize" ["x0", "_", "[" ++ ",".intercalate ("1.0:FLOAT" :: "1.0:FLOAT" :: sc.map scaleStr) ++ "]"] attrs
+
+/-- `aten::upsample_*(x, output_size, scales…)`: the result has `output_size`. -/
+def spec (s : Shape) (outSize : List Int) : Option Shape :=
+  if s.length < 3 ∨ outSize.length + 2 ≠ s.length ∨ outSize.any (· ≤ 0) then none
+  else some (s.take 2 ++ outSize.map Int.toNat)
+
+end upsample
+
+namespace col2im
+
+/-- `aten_col2im` pads: `[w] → [w,w,w,w]`, `[w,x] → [w,x,w,x]`, else unchanged. -/
+def pads (p : List Int) : List Int :=
+  if p.length = 1 then pyMul p 4 else if p.length = 2 then pyMul p 2 else p
+
+def term (outSize kernel dil pad stride : List Int) : String :=
+  tOp "Col2Im" ["x0", tInts outSize, tInts kernel] [("dilations", tInts dil), ("pads", tInts (pads pad)), ("strides", tInts stride)]
+
+/-- number of sliding blocks along one axis -/
+def blocks (n k s pb pe d : Int) : Int := (n + pb + pe - d * (k - 1) - 1) / s + 1
+
+def model (s : Shape) (outSize kernel dil pad stride : List Int) : Option Shape :=
+  let ps := pads pad
+  if s.length ≠ 3 ∨ outSize.length ≠ 2 ∨ kernel.length ≠ 2 ∨ dil.length ≠ 2 ∨ stride.length ≠ 2 ∨ ps.length ≠ 4 then none
+  else
+    let kk := (attr.getI kernel 0 * attr.getI kernel 1).toNat
+    let l := (List.range 2).map (fun i => blocks (attr.getI outSize i) (attr.getI kernel i) (attr.getI stride i)
+      (attr.getI ps i) (attr.getI ps (i + 2)) (attr.getI dil i))
+    if kk = 0 ∨ s.getD 1 0 % kk ≠ 0 ∨ l.any (· ≤ 0) ∨ ((attr.getI l 0) * (attr.getI l 1)).toNat ≠ s.getD 2 0 then none
+    else some [s.getD 0 0, s.getD 1 0 / kk, (attr.getI outSize 0).toNat, (attr.getI outSize 1).toNat]
+
+def spec (s : Shape) (outSize kernel dil pad stride : List Int) : Option Shape :=
+  if s.length ≠ 3 ∨ outSize.length ≠ 2 ∨ kernel.length ≠ 2 ∨ dil.length ≠ 2 ∨ stride.length ≠ 2 ∨ pad.length ≠ 2 then none
+  else
+    let kk := (attr.getI kernel 0 * attr.getI kernel 1).toNat
+    let l := (List.range 2).map (fun i => attr.torchConvOut (attr.getI outSize i) (attr.getI kernel i) (attr.getI stride i)
+      (attr.getI pad i) (attr.getI dil i))
+    if kk = 0 ∨ s.getD 1 0 % kk ≠ 0 ∨ l.any (· ≤ 0) ∨ ((attr.getI l 0) * (attr.getI l 1)).toNat ≠ s.getD 2 0 then none
+    else some [s.getD 0 0, s.getD 1 0 / kk, (attr.getI outSize 0).toNat, (attr.getI outSize 1).toNat]
+
+end col2im
+
+namespace im2col
+
+/-- blocks along one axis as emitted: `Range(0, n + (2p - d(k-1)), s)`. -/
+def blocksModel (n k s p d : Int) : Nat := rangeLen 0 (n + (2 * p - d * (k - 1))) s
+
+def model (s : Shape) (kernel dil pad stride : List Int) : Option Shape :=
+  if s.length ≠ 4 ∨ kernel.length ≠ 2 ∨ dil.length ≠ 2 ∨ pad.length ≠ 2 ∨ stride.length ≠ 2 then none
+  else
+    let l := (List.range 2).map (fun i => blocksModel (s.getD (i + 2) 0) (attr.getI kernel i) (attr.getI stride i)
+      (attr.getI pad i) (attr.getI dil i))
+    if l.any (· = 0) then none
+    else some [s.getD 0 0, s.getD 1 0 * (attr.getI kernel 0 * attr.getI kernel 1).toNat, l.getD 0 0 * l.getD 1 0]
+
+def term (kernel dil pad stride : List Int) : String :=
+  let kh := attr.getI kernel 0; let kw := attr.getI kernel 1
+  let dh := attr.getI dil 0; let dw := attr.getI dil 1
+  let ph := attr.getI pad 0; let pw := attr.getI pad 1
+  let sh := attr.getI stride 0; let sw := attr.getI stride 1
+  let shp := tOp "Shape" ["x0"] [("start", "0")]
+  let u (x : String) := tOp "Unsqueeze" [x, "[0]"]
+  let padT := tOp "Pad" ["x0", tOp "Concat" ["[0,0]", u (tI ph), u (tI pw), "[0,0]", u (tI ph), u (tI pw)] [("axis", "0")]]
+    [("mode", "constant")]
+  let idx (ax : Nat) (k d p s : Int) :=
+    tOp "Add" [tOp "Unsqueeze" [tOp "Range" ["0", tOp "Add" [tOp "Gather" [shp, toString ax] [("axis", "0")], tI (2 * p - d * (k - 1))], tI s], "[0]"],
+      tOp "Unsqueeze" [tOp "Range" ["0", tI (k * d), tI d], "[1]"]]
+  let g1 := tOp "Gather" [padT, idx 2 kh dh ph sh] [("axis", "2")]
+  let g2 := tOp "Gather" [g1, idx 3 kw dw pw sw] [("axis", "4")]
+  let outShape := tOp "Concat" [u (tOp "Gather" [shp, "0"] [("axis", "0")]),
+    u (tOp "Mul" [tOp "Gather" [shp, "1"] [("axis", "0")], tI (kh * kw)]), "[-1]"] [("axis", "0")]
+  tOp "Reshape" [tOp "Transpose" [g2] [("perm", "[0,1,2,4,3,5]")], outShape] [("allowzero", "0")]
+
+def spec (s : Shape) (kernel dil pad stride : List Int) : Option Shape :=
+  if s.length ≠ 4 ∨ kernel.length ≠ 2 ∨ dil.length ≠ 2 ∨ pad.length ≠ 2 ∨ stride.length ≠ 2 then none
+  else
+    let l := (List.range 2).map (fun i => attr.torchConvOut (s.getD (i + 2) 0) (attr.getI kernel i) (attr.getI stride i)
+      (attr.getI pad i) (attr.getI dil i))
+    if l.any (· ≤ 0) then none
+    else some [s.getD 0 0, s.getD 1 0 * (attr.getI kernel 0 * attr.getI kernel 1).toNat, ((attr.getI l 0) * (attr.getI l 1)).toNat]
+
+end im2col
 
 end OV.C08
